@@ -365,7 +365,7 @@ func fnSort(ctx *cmdContext, args map[string]any) (output respValue, err error) 
 	}
 	_, isDesc := args["order.desc"]
 	_, isAlpha := args["sorting"] // this name may be a redis bug
-	destKeyName, _ := args["destination"].(string)
+	destKeyName, store := args["destination"].(string)
 
 	start := -1
 	count := -1
@@ -383,7 +383,7 @@ func fnSort(ctx *cmdContext, args map[string]any) (output respValue, err error) 
 		getPatterns = append(getPatterns, str)
 	}
 
-	output = ctx.dsc.sort(sourceKeyName, byPattern, destKeyName, start, count, getPatterns, hasOffset, isDesc, isAlpha)
+	output = ctx.dsc.sort(sourceKeyName, byPattern, destKeyName, store, start, count, getPatterns, hasOffset, isDesc, isAlpha)
 	return
 }
 
